@@ -353,7 +353,7 @@ func c15ExcludedDial(c *Ctx) {
 		}
 		sig := cal.Type().(*types.Signature)
 		for i := 0; i < sig.Params().Len() && i < len(call.Args); i++ {
-			if sig.Params().At(i).Name() != "excluded" {
+			if core.CanonName(sig.Params().At(i)) != "excluded" {
 				continue
 			}
 			n++
